@@ -4,6 +4,7 @@ The task text contains ONLY the property's own text (title, statement, quantifie
 import os, json
 VERIF = os.path.dirname(os.path.dirname(os.path.abspath(__file__)))
 OUT = '/root/seedtasks'
+AVOID = json.load(open('/root/seedtasks_avoid.json')) if os.path.exists('/root/seedtasks_avoid.json') else {}
 os.makedirs(OUT, exist_ok=True)
 T = '''You are stress-testing how well a Go project's guarantees are protected. The project is anz-bank/sysl (a system
 specification language toolchain: ANTLR parser, protobuf model, expression evaluator, importers/exporters, diagram and
@@ -59,8 +60,11 @@ the evidence that suite passes / demo fails with / demo passes without.
 for l in open(os.path.join(VERIF, 'properties.jsonl')):
     p = json.loads(l)
     files = ', '.join(p['anchors'].get('files', []))
-    for k, n in (('a', 2),):
+    for k, n in (('a', 2), ('b', 2)):
+        extra = ''
+        if k != 'a' and AVOID.get(p['id']):
+            extra = '\nAn earlier round already produced these regressions for this property — yours must differ from them in code site AND in kind:\n' + ''.join('  * %s\n' % a for a in AVOID[p['id']])
         s = (T.replace('{PID}', p['id']).replace('{K}', k).replace('{N}', str(n)).replace('{TITLE}', p['title'])
-              .replace('{STATEMENT}', p['statement']).replace('{QUANT}', p['quantifier']['text']).replace('{FILES}', files))
+              .replace('{STATEMENT}', p['statement']).replace('{QUANT}', p['quantifier']['text']).replace('{FILES}', files).replace('YOUR TASK:', extra + '\nYOUR TASK:' if extra else 'YOUR TASK:'))
         open(os.path.join(OUT, '%s_%s.txt' % (p['id'], k)), 'w').write(s)
 print('written', len(os.listdir(OUT)), 'task files to', OUT)
